@@ -123,9 +123,73 @@ pub struct GroupRec {
     pub deadlock_report: String,
 }
 
+/// Structural view of the state database: no run ids, no stamps.
+#[derive(Clone, Debug, Default, PartialEq, Eq)]
+pub struct DbView {
+    /// name -> (is_generated, is_override, failed, has checksum)
+    pub files: BTreeMap<String, (bool, bool, bool, bool)>,
+    /// (target name, source name, mode)
+    pub deps: std::collections::BTreeSet<(String, String, String)>,
+    pub integrity: String,
+}
+
+pub fn db_view(root: &Path) -> Option<DbView> {
+    let p = root.join(".redo/db.sqlite3");
+    if !p.exists() {
+        return None;
+    }
+    let db = rusqlite::Connection::open(&p).ok()?;
+    let mut v = DbView::default();
+    v.integrity = db
+        .query_row("pragma integrity_check", [], |r| r.get::<_, String>(0))
+        .unwrap_or_else(|e| format!("error: {}", e));
+    {
+        let mut st = db
+            .prepare("select name, is_generated, is_override, failed_runid, csum from Files")
+            .ok()?;
+        let rows = st
+            .query_map([], |r| {
+                Ok((
+                    r.get::<_, String>(0)?,
+                    r.get::<_, Option<i64>>(1)?.unwrap_or(0) != 0,
+                    r.get::<_, Option<i64>>(2)?.unwrap_or(0) != 0,
+                    r.get::<_, Option<i64>>(3)?.unwrap_or(0) != 0,
+                    r.get::<_, Option<String>>(4)?.map_or(false, |c| !c.is_empty()),
+                ))
+            })
+            .ok()?;
+        for r in rows.flatten() {
+            v.files.insert(r.0, (r.1, r.2, r.3, r.4));
+        }
+    }
+    {
+        let mut st = db
+            .prepare(
+                "select t.name, s.name, d.mode from Deps d join Files t on t.rowid = d.target \
+                 join Files s on s.rowid = d.source",
+            )
+            .ok()?;
+        let rows = st
+            .query_map([], |r| {
+                Ok((
+                    r.get::<_, String>(0)?,
+                    r.get::<_, String>(1)?,
+                    r.get::<_, String>(2)?,
+                ))
+            })
+            .ok()?;
+        for r in rows.flatten() {
+            v.deps.insert(r);
+        }
+    }
+    Some(v)
+}
+
 #[derive(Clone, Debug)]
 pub struct RunRecord {
     pub groups: Vec<GroupRec>,
+    /// state database after every history step (None before it exists)
+    pub db_after: Vec<Option<DbView>>,
     /// file system below the root (without .redo) after every history step
     pub fs_after: Vec<BTreeMap<String, FileSnap>>,
     pub world_after: Vec<World>,
@@ -362,6 +426,7 @@ pub fn play(
     let root = paths.root();
     let mut rec = RunRecord {
         groups: Vec::new(),
+        db_after: Vec::new(),
         fs_after: Vec::new(),
         world_after: Vec::new(),
         harness_error: None,
@@ -412,6 +477,11 @@ pub fn play(
             absorb(&mut world, &fs);
         }
         rec.fs_after.push(fs);
+        rec.db_after.push(if matches!(step, Step::Cmds(_)) {
+            db_view(&root)
+        } else {
+            None
+        });
         rec.world_after.push(world.clone());
     }
     rec
@@ -609,7 +679,12 @@ fn play_group(
                 .filter(|e| {
                     matches!(
                         e.kind,
-                        EvKind::Op(Class::Event) | EvKind::Dead | EvKind::Hello | EvKind::Fault
+                        EvKind::Op(Class::Event)
+                            | EvKind::Op(Class::Proc)
+                            | EvKind::Info
+                            | EvKind::Dead
+                            | EvKind::Hello
+                            | EvKind::Fault
                     )
                 })
                 .cloned()
